@@ -7,7 +7,7 @@ from symx import Unit, as_rope, check_property, decide, load, rope_eq, run_canar
 from symx.ideal import World
 from symx.rope import HexOf
 
-from . import common, hap
+from . import c02, common, hap
 from .c01 import T_ENC, T_ID, T_METHOD, T_PROOF, T_PUBKEY, T_SALT, T_SIG, T_STATE, eq, send
 from .refs import tlv8_encode
 
@@ -299,6 +299,10 @@ def build(tier, mutate=None):
         Unit("setup/part2-M4-M6", part2(C), part2(R), split=True,
              bounds={"M4 proof": PROOFS, "M6": M6S, "M6 sub-TLV": {"identifier": INNER_ID, "public key": INNER_PK, "signature": INNER_SIG}},
              regions=["m4-rejected", "m6-rejected", "paired"]),
+        # the same exchange with the real SRP client copy instead of the ideal one (C02's unit): what the ideal SRP cannot see,
+        # e.g. the session key taking a detour through an integer and losing its leading zero bytes
+        Unit("setup/srp-values-as-bytes (unit of C02)", c02.protocol_unit(c02.copies(mutate)), c02.protocol_unit(c02.reals()),
+             bounds={"leading zero in": ["none", "A", "K", "M1"]}, regions=["lz-none", "lz-K"], diff_sample=100000),
         Unit("setup/two-pairings", two_pairings(C), two_pairings(R), bounds={"exchanges": 2, "second": "another honest accessory / a replay of the first exchange"},
              regions=["honest-other-accessory", "replay-of-the-first"]),
     ]
